@@ -31,6 +31,14 @@ func cmdReplay(args []string) {
 	vh.ReadJSON(*up, &u)
 	var cases []gq.Case
 	vh.ReadJSON(*vp, &cases)
+	for i := range cases { // calls on silent nodes are never logged, so they are not prescribed either
+		if cases[i].Exp != nil {
+			cases[i].Exp.Calls = u.DropSilent(cases[i].Exp.Calls)
+		}
+		if cases[i].ExpK != nil {
+			cases[i].ExpK.Calls = u.DropSilent(cases[i].ExpK.Calls)
+		}
+	}
 	rep := vh.NewReport("exec", "replay")
 	worlds := map[string]*gq.World{}
 	for _, s := range strings.Split(*strat, ",") {
@@ -142,7 +150,7 @@ func cmdReplay(args []string) {
 
 // reflOnly: families about interface / union typed fields need Go type bindings (documented limitation of the other strategies).
 func reflOnly(fam string) bool {
-	return fam == "abstract" || fam == "defectabs" || fam == "absops"
+	return fam == "abstract" || fam == "defectabs" || fam == "absops" || fam == "forms"
 }
 
 // sharedParse: the cases TLC enumerates for one document differ in operation, variables and injected
@@ -331,7 +339,7 @@ func cmdRecord(args []string) {
 		} else {
 			u = g.RandomUniverse()
 		}
-		g.U = u
+		g.U = u.WithoutSilent()
 		_ = enc.Encode(map[string]interface{}{"r": "universe", "u": u})
 		idx++
 		worlds := map[string]*gq.World{}
